@@ -130,6 +130,14 @@ pub fn cases(ctx: &Ctx) -> Vec<Case> {
         // a file with no content block at all
         v.push(Case::ModelToLib { prog: single_file(layers, 1, model::consts::Sz::lit(0), DataKind::Text, ctx.seed), enc_seed: 8, ids: IdStyle::From(5), empty_blocks: false });
     }
+    // names at the limit of the format (65536 bytes), one byte below, and in 3-byte characters: encoder -> library
+    for (i, layers) in LAYER_COMBOS.into_iter().enumerate() {
+        for (j, name) in [NameKind::Long(65536), NameKind::Long(65535), NameKind::Lit("\u{65e5}".repeat(21845) + "x")].into_iter().enumerate() {
+            let mut p = single_file(layers, 1, model::consts::Sz::lit(300 + j as i64), DataKind::Text, ctx.seed ^ 0x4A3E);
+            p.files[0].name = name;
+            v.push(Case::ModelToLib { prog: p, enc_seed: 40 + (i * 3 + j) as u64, ids: IdStyle::Sequential, empty_blocks: false });
+        }
+    }
     // cipher core
     let lens = [0usize, 1, 15, 16, 17, 31, 32, 33, 4095, 4096, 4097, 131071, 131072];
     let reps = if ctx.quick() { 6 } else { 60 };
